@@ -22,6 +22,77 @@ pub struct BuildCfg {
     pub metrics: bool,
     pub validator: Validator,
     pub keys: Vec<(u64, u64)>,
+    /// in which order the builder's setters are called (0 = key builder in the constructor)
+    pub order: u8,
+}
+
+/// The same configuration through different call orders of the builder (the setters that change a
+/// type parameter rebuild the builder; every other setting must survive that).
+macro_rules! build_chain {
+    ($B:ident, $cfg:expr, $kb:expr, $cb:expr) => {{
+        let cfg = $cfg;
+        match cfg.order % 5 {
+            0 => $B::new_with_key_builder(cfg.num_counters, cfg.max_cost, $kb)
+                .set_buffer_size(cfg.buffer_size)
+                .set_buffer_items(cfg.buffer_items)
+                .set_ignore_internal_cost(cfg.ignore_internal_cost)
+                .set_metrics(cfg.metrics)
+                .set_coster(TagCoster)
+                .set_update_validator(cfg.validator)
+                .set_callback($cb)
+                .set_hasher(DetS::default())
+                .verif_finalize_parked(),
+            // plain settings first, the type-changing setters (key builder included) afterwards
+            1 => $B::<u64, Val>::new(cfg.num_counters, cfg.max_cost)
+                .set_buffer_items(cfg.buffer_items)
+                .set_buffer_size(cfg.buffer_size)
+                .set_metrics(cfg.metrics)
+                .set_ignore_internal_cost(cfg.ignore_internal_cost)
+                .set_key_builder($kb)
+                .set_coster(TagCoster)
+                .set_update_validator(cfg.validator)
+                .set_callback($cb)
+                .set_hasher(DetS::default())
+                .verif_finalize_parked(),
+            // type-changing setters first
+            2 => $B::<u64, Val>::new(cfg.num_counters, cfg.max_cost)
+                .set_hasher(DetS::default())
+                .set_callback($cb)
+                .set_update_validator(cfg.validator)
+                .set_coster(TagCoster)
+                .set_key_builder($kb)
+                .set_ignore_internal_cost(cfg.ignore_internal_cost)
+                .set_metrics(cfg.metrics)
+                .set_buffer_size(cfg.buffer_size)
+                .set_buffer_items(cfg.buffer_items)
+                .verif_finalize_parked(),
+            // interleaved, sizes given through their setters
+            3 => $B::<u64, Val>::new(97, 7)
+                .set_buffer_items(cfg.buffer_items)
+                .set_coster(TagCoster)
+                .set_max_cost(cfg.max_cost)
+                .set_buffer_size(cfg.buffer_size)
+                .set_update_validator(cfg.validator)
+                .set_metrics(cfg.metrics)
+                .set_callback($cb)
+                .set_num_counters(cfg.num_counters)
+                .set_ignore_internal_cost(cfg.ignore_internal_cost)
+                .set_hasher(DetS::default())
+                .set_key_builder($kb)
+                .verif_finalize_parked(),
+            _ => $B::<u64, Val>::new(cfg.num_counters, cfg.max_cost)
+                .set_metrics(cfg.metrics)
+                .set_key_builder($kb)
+                .set_buffer_size(cfg.buffer_size)
+                .set_hasher(DetS::default())
+                .set_ignore_internal_cost(cfg.ignore_internal_cost)
+                .set_callback($cb)
+                .set_buffer_items(cfg.buffer_items)
+                .set_update_validator(cfg.validator)
+                .set_coster(TagCoster)
+                .verif_finalize_parked(),
+        }
+    }};
 }
 
 #[derive(Clone, Copy, Debug, PartialEq, Eq)]
@@ -157,16 +228,7 @@ impl SyncSut {
         let kb = TableKB {
             table: Arc::new(cfg.keys.clone()),
         };
-        let (cache, proc_) = CacheBuilder::new_with_key_builder(cfg.num_counters, cfg.max_cost, kb)
-            .set_buffer_size(cfg.buffer_size)
-            .set_buffer_items(cfg.buffer_items)
-            .set_ignore_internal_cost(cfg.ignore_internal_cost)
-            .set_metrics(cfg.metrics)
-            .set_coster(TagCoster)
-            .set_update_validator(cfg.validator)
-            .set_callback(cb.clone())
-            .set_hasher(DetS::default())
-            .verif_finalize_parked()?;
+        let (cache, proc_) = build_chain!(CacheBuilder, cfg, kb, cb.clone())?;
         Ok(SyncSut {
             cap: cfg.buffer_size,
             cache,
@@ -400,17 +462,7 @@ impl AsyncSut {
         let kb = TableKB {
             table: Arc::new(cfg.keys.clone()),
         };
-        let (cache, proc_) =
-            AsyncCacheBuilder::new_with_key_builder(cfg.num_counters, cfg.max_cost, kb)
-                .set_buffer_size(cfg.buffer_size)
-                .set_buffer_items(cfg.buffer_items)
-                .set_ignore_internal_cost(cfg.ignore_internal_cost)
-                .set_metrics(cfg.metrics)
-                .set_coster(TagCoster)
-                .set_update_validator(cfg.validator)
-                .set_callback(cb.clone())
-                .set_hasher(DetS::default())
-                .verif_finalize_parked()?;
+        let (cache, proc_) = build_chain!(AsyncCacheBuilder, cfg, kb, cb.clone())?;
         Ok(AsyncSut {
             cap: cfg.buffer_size,
             cache,
